@@ -161,6 +161,20 @@ func (v *V) ValidSwagger() map[string]any {
 		for _, n := range v.DefNames {
 			defs[n] = v.instance("schema", 1, "")
 		}
+		// recursive definitions are common in real documents: make some by construction
+		if Pct(v.T, "recursive", 35) {
+			n0 := v.DefNames[Uniform(v.T, "recdef", len(v.DefNames))]
+			if d0, ok := defs[n0].(map[string]any); ok {
+				if _, isRef := d0["$ref"]; !isRef {
+					props, _ := d0["properties"].(map[string]any)
+					if props == nil {
+						props = map[string]any{}
+					}
+					props["self"] = map[string]any{"$ref": "#/definitions/" + fragEscape(n0)}
+					d0["properties"] = props
+				}
+			}
+		}
 		doc["definitions"] = defs
 	}
 	savedP, savedR := v.ParamNames, v.RespNames
@@ -170,6 +184,10 @@ func (v *V) ValidSwagger() map[string]any {
 		for _, n := range savedP {
 			fls := []string{"body", "query", "formData", "path", "header"}
 			ps[n] = v.instanceFl("parameter", fls[Uniform(v.T, "gparamfl", len(fls))], 1, "")
+			// a body parameter whose schema is directly a $ref to a definition
+			if len(v.DefNames) > 0 && Pct(v.T, "bodyref", 25) {
+				ps[n] = map[string]any{"name": "body", "in": "body", "schema": map[string]any{"$ref": "#/definitions/" + fragEscape(v.DefNames[Uniform(v.T, "bodyrefdef", len(v.DefNames))])}}
+			}
 		}
 		doc["parameters"] = ps
 	}
